@@ -160,6 +160,32 @@ func stressStmt(r *simrt.Rand) string {
 		}
 		return strings.Join(parts, sep)
 	}
+	if r.Chance(1, 40) {
+		// a block whose code is longer than a 16-bit jump argument reaches
+		// (sizes sampled around the 65535 / 65536 boundary and well beyond)
+		k := 16376 + r.Intn(16)
+		if r.Chance(1, 3) {
+			k = []int{17000, 22000, 33000}[r.Intn(3)]
+		}
+		body := strings.Repeat(" a\n", k) + strings.Repeat(" a.b\n", r.Intn(4))
+		switch r.Intn(5) {
+		case 0:
+			return "while x:\n" + body
+		case 1:
+			return "if x:\n y\nelse:\n" + body
+		case 2:
+			return "for i in x:\n" + body + "else:\n z\n"
+		case 3:
+			return "try:\n" + body + "finally:\n z\n"
+		default:
+			var b strings.Builder
+			for i := 0; i < 14; i++ {
+				b.WriteString(strings.Repeat(" ", i) + "if a:\n")
+			}
+			b.WriteString(strings.Repeat(strings.Repeat(" ", 14)+"a\n", k-30+r.Intn(60)))
+			return b.String()
+		}
+	}
 	switch r.Intn(16) {
 	case 14, 15:
 		// deeply nested blocks of the kinds the code generator keeps on its block
